@@ -64,3 +64,13 @@ Proof.
   intros H. specialize (H (s_i32 1) (Variant 7 0 8 (s_i32 2) 0) eq_refl eq_refl).
   vm_compute in H. discriminate H.
 Qed.
+
+(* C13-4 (open, every variant): the plain-assignment path accepts a distinct value at its own
+   underlying named struct, through the is_weak_replaceable_by shortcut *)
+Lemma assignment_law_refuted : forall fx,
+  ~ (forall value dest, is_nominal value = true -> assign_outcome fx value dest = Ok Accept ->
+                        ntarget fx value dest <> NT_cross).
+Proof.
+  intros fx H. specialize (H (Distinct 5 (s_i32 1)) (s_i32 1) eq_refl).
+  destruct fx as [[] [] []]; vm_compute in H; apply H; reflexivity.
+Qed.
